@@ -6,7 +6,8 @@ import sys
 
 from .. import format as odmlfmt
 from ..info import FORMAT_VERSION
-from .parser_utils import InvalidVersionException, ParserException, odml_tuple_export
+from .parser_utils import InvalidVersionException, ParserException
+from .parser_utils import odml_tuple_export, odml_tuple_split
 
 LABEL_ERROR = "Error"
 LABEL_WARNING = "Warning"
@@ -407,6 +408,14 @@ class DictReader:
 
                     # Make sure to always use the correct odml format attribute name
                     prop_attrs[odmlfmt.Property.map(attr)] = content
+
+            # The values of an odML tuple Property are written as a single string;
+            # a tuple containing a comma has been quoted and must not be split there.
+            values = prop_attrs.get("values")
+            dtype = prop_attrs.get("dtype")
+            if isinstance(values, str) and isinstance(dtype, str) and \
+                    dtype.lower().endswith("-tuple"):
+                prop_attrs["values"] = odml_tuple_split(values)
 
             try:
                 prop = odmlfmt.Property.create(**prop_attrs)
